@@ -67,6 +67,8 @@ type Engine struct {
 	verbose        bool
 	maxPaths       int
 	noMerge        bool
+	fairLoops      map[string]bool
+	fixedInputs    map[string]uint64
 }
 
 func (e *Engine) unwindFor(fn *ssa.Function) int {
@@ -476,11 +478,38 @@ func (e *Engine) Explore(entry *ssa.Function, nworkers int, deadline time.Time) 
 	return x
 }
 
+// ReplayConcrete re-executes one counterexample inside the executor with every
+// input fixed to its model value and the recorded scheduling/choice decisions;
+// it reports whether a violation with the same label shows up again.
+func (e *Engine) ReplayConcrete(entry *ssa.Function, v *Violation) (bool, string) {
+	s, err := NewSolver(e.solverKind, e.timeoutMs)
+	if err != nil {
+		return false, err.Error()
+	}
+	defer s.Close()
+	var prefix []Decision
+	for _, c := range v.Choices {
+		prefix = append(prefix, Decision{Kind: 'c', N: c})
+	}
+	x := &Explorer{eng: e, entry: entry}
+	x.cond = sync.NewCond(&x.mu)
+	e.fixedInputs = v.Model
+	res := e.runPath(x, s, entry, prefix)
+	e.fixedInputs = nil
+	for _, rv := range res.Violations {
+		if rv.Label == v.Label {
+			return true, rv.Detail
+		}
+	}
+	return false, res.Status + ": " + firstLine(res.Msg)
+}
+
 func (e *Engine) runPath(x *Explorer, s *Solver, entry *ssa.Function, prefix []Decision) (res *PathResult) {
 	s.Reset()
 	s.Errors = nil
 	q0 := s.Queries
 	in := &Interp{
+		fixed: e.fixedInputs,
 		eng: e, eng2: x, F: NewFactory(), S: s, prog: e.prog,
 		prefix:    prefix,
 		globals:   map[*ssa.Global]*Object{},
